@@ -1,6 +1,8 @@
 (* Props/C04.v — property theorems for C04 "no lost updates: first committer wins" (sequential,
    oracle-level part).  Models: Conc/Oracle.v (src/oracle.rs), Conc/CommitSeq.v (the commit
-   critical section with the trackers, sequentially).  GC interval and the comparison operators of
+   critical section with the trackers, sequentially; WITH the repair of finding C04-N1: the restore
+   epoch — a transaction that began before the last restore is answered Retry before the oracle is
+   consulted).  GC interval and the comparison operators of
    every decision site come from Params.v (generated from the sources on every run).  The
    fingerprint function is universally quantified (soundness for ANY fp, completeness under
    injectivity on the keys of the history). *)
@@ -9,7 +11,8 @@ From SKV Require Import Params Base.Lex Conc.Oracle Conc.CommitSeq Conc.OracleSp
 Import ListNotations.
 Local Open Scope N_scope.
 
-(* the generated operators are `<`, `>`, `>=`, `>`, `>=`, `==`, `==` as the proofs assume; first seq = 1 *)
+(* the generated operators are `<`, `>`, `>=`, `>`, `>=`, `==`, `==` as the proofs assume; first seq = 1;
+   the epoch test of the commit critical section is `begin_epoch != restore_epoch` *)
 Theorem C04_params_side_conditions : oracle_params_ok.
 Proof. exact params_ok. Qed.
 
@@ -36,7 +39,8 @@ Proof. exact (watermark_ok_run fp ORACLE_GC_INTERVAL). Qed.
 Theorem C04_no_lost_update : no_lost_update_stmt fp ORACLE_GC_INTERVAL.
 Proof. exact (no_lost_update fp ORACLE_GC_INTERVAL). Qed.
 
-(* no false conflict (fp injective on the history's keys), any history *)
+(* no false conflict (fp injective on the history's keys), any history; the transaction is of the
+   current restore epoch (otherwise: C04_stale_epoch_refused) *)
 Theorem C04_no_false_conflict : no_false_conflict_stmt fp ORACLE_GC_INTERVAL.
 Proof. exact (no_false_conflict fp ORACLE_GC_INTERVAL). Qed.
 (* a transaction registered at begin is never answered Retry (no restore in the history) *)
@@ -56,6 +60,32 @@ Proof. exact (gc_clamp_ok fp ORACLE_GC_INTERVAL). Qed.
 (* a refused commit (Conflict, Retry, closed, unknown) changes nothing *)
 Theorem C04_refused_has_no_effect : refused_has_no_effect_stmt fp ORACLE_GC_INTERVAL.
 Proof. exact (refused_has_no_effect fp ORACLE_GC_INTERVAL). Qed.
+
+(* ---- the repair of C04-N1: `begin_epoch != restore_epoch => Retry` first thing in the critical section ---- *)
+(* a transaction of an earlier restore epoch is answered Retry: no oracle call, nothing changes (ANY state) *)
+Theorem C04_stale_epoch_refused : stale_epoch_refused_stmt fp ORACLE_GC_INTERVAL.
+Proof. exact (stale_epoch_refused fp ORACLE_GC_INTERVAL). Qed.
+(* a transaction (begun through the API) that is open across a restore can never commit again, whatever
+   happens afterwards (the new timeline catching up with its old start included): Retry, nothing changes *)
+Theorem C04_open_across_restore_refused : open_across_restore_refused_stmt fp ORACLE_GC_INTERVAL.
+Proof. exact (open_across_restore_refused fp ORACLE_GC_INTERVAL). Qed.
+Theorem C04_oracle_consulted_only_in_epoch : oracle_consulted_only_in_epoch_stmt fp ORACLE_GC_INTERVAL.
+Proof. exact (oracle_consulted_only_in_epoch fp ORACLE_GC_INTERVAL). Qed.
+(* first committer wins in terms of TIME for ALL histories, failures and restores anywhere, no proviso:
+   an accepted commit of T means that no commit made after T began, and still there, wrote one of T's keys *)
+Theorem C04_no_lost_update_since_begin : no_lost_update_since_begin_stmt fp ORACLE_GC_INTERVAL.
+Proof. exact (no_lost_update_since_begin fp ORACLE_GC_INTERVAL). Qed.
+(* kept_since <= visible after EVERY history through the API, restores included: the state of the old
+   pathology (b) is unreachable *)
+Theorem C04_kept_le_visible : kept_le_visible_stmt fp ORACLE_GC_INTERVAL.
+Proof. exact (kept_le_visible fp ORACLE_GC_INTERVAL). Qed.
+(* a transaction that begins, registered, after the last restore is never answered Retry, whatever was left
+   open across the restores before it *)
+Theorem C04_registered_after_restore_never_retry : registered_after_restore_never_retry_stmt fp ORACLE_GC_INTERVAL.
+Proof. exact (registered_after_restore_never_retry fp ORACLE_GC_INTERVAL). Qed.
+(* ... and is accepted unless a commit made after it began wrote one of its keys *)
+Theorem C04_commit_accepted_after_restore : commit_accepted_after_restore_stmt fp ORACLE_GC_INTERVAL.
+Proof. exact (commit_accepted_after_restore fp ORACLE_GC_INTERVAL). Qed.
 End AnyFingerprint.
 
 (* the history that lost an update before F13 was repaired: the overlapping committer is refused *)
@@ -63,15 +93,37 @@ Example C04_f13_history_refused :
   step_outcome toy_fp ORACLE_GC_INTERVAL (run toy_fp ORACLE_GC_INTERVAL lu_steps c0) (SCommit 3 [kA] false) = OConflict.
 Proof. exact lu_steps_refused. Qed.
 
-(* REFUTED (finding C04-N1, open): registered_never_retry does not survive a restore that rewinds the
-   counter below the start of a transaction that is still open: after that transaction commits at
-   a GC firing, kept_since > visible and every later transaction is answered Retry *)
-Theorem C04_fresh_retry_after_restore : fresh_retry_after_restore toy_fp ORACLE_GC_INTERVAL.
-Proof. exact fresh_retry_after_restore_holds. Qed.
+(* REGRESSION RECORDS (finding C04-N1, repaired), about the machine WITHOUT the repair (Conc/CommitSeqOld.v):
+   (b) after a restore that rewinds the counter below the start of a transaction that is still open, that
+   transaction commits at a GC firing, kept_since > visible and every later transaction is answered Retry;
+   the same history on the repaired machine: the fresh transaction is accepted, kept_since <= visible *)
+Theorem C04_fresh_retry_after_restore_old : fresh_retry_after_restore_old toy_fp ORACLE_GC_INTERVAL.
+Proof. exact fresh_retry_after_restore_old_holds. Qed.
+(* (a) the transaction open across the restore and one that begins and commits right after the restore both
+   commit the same key; the same history on the repaired machine: the stale one is answered Retry *)
+Theorem C04_lost_update_across_restore_old : lost_update_across_restore_old toy_fp ORACLE_GC_INTERVAL la_pre la_post 1.
+Proof. exact lost_update_across_restore_old_holds. Qed.
+(* (a) again, after the new timeline has caught up with the stale transaction's start (a history that a test
+   on the start sequence number alone cannot refuse); repaired machine: Retry *)
+Theorem C04_lost_update_after_catchup_old : lost_update_across_restore_old toy_fp ORACLE_GC_INTERVAL cu_pre cu_post 1.
+Proof. exact lost_update_after_catchup_old_holds. Qed.
+(* why C04_kept_le_visible and the two theorems after it are stated for histories through the API: the
+   epoch-less pipeline entry (kept for the crate's own tests) is not protected *)
+Theorem C04_epochless_commit_unprotected : epochless_commit_unprotected toy_fp ORACLE_GC_INTERVAL.
+Proof. exact epochless_commit_unprotected_holds. Qed.
 
 (* hypotheses are satisfiable: an ordinary history ends in acceptance, a conflicting one in Conflict *)
 Example C04_example_outcomes :
   outcomes toy_fp ORACLE_GC_INTERVAL
     [SBegin 1 BRW; SBegin 2 BWO; SCommit 1 [kA; kB] false; SCommit 2 [kB] false; SBegin 3 BRW; SCommit 3 [kB] false] c0
   = [OOk; OOk; OOk; OConflict; OOk; OOk].
+Proof. vm_compute. reflexivity. Qed.
+
+(* the catch-up history on the repaired machine: T1 (open across the restore) is refused before AND after the
+   new timeline reaches its old start; the fresh transactions are accepted *)
+Example C04_example_open_across_restore :
+  outcomes toy_fp ORACLE_GC_INTERVAL
+    (cu_pre ++ [SBegin 1 BRW; SRestore 2; SBegin 2 BRW; SCommit 2 [kA] false; SCommit 1 [kA] false;
+                SBegin 3 BRW; SCommit 3 [kB] false; SCommit 1 [kA] false; SBegin 4 BRW; SCommit 4 [kB] false]) c0
+  = [OOk; OOk; OOk; OOk; OOk; OOk; OOk; OOk;  OOk; OOk; OOk; OOk; ORetry; OOk; OOk; ORetry; OOk; OOk].
 Proof. vm_compute. reflexivity. Qed.
